@@ -6,7 +6,7 @@
    The comparison with the model is computed here. *)
 From Coq Require Import List NArith Bool.
 From RopeVerif.Lib Require Import Text.
-From RopeVerif.C07 Require Import Imports Spec.
+From RopeVerif.C07 Require Import Imports Spec Renaming.
 Import ListNotations.
 
 Record case := {
@@ -109,7 +109,10 @@ Definition run_case (c : case) : N :=
   | None, Some _ => 2%N
   | Some _, None => 2%N
   | Some (l, us), Some r =>
-      if (N.leb 3 (c_action c)) && negb (c_cmp_used c) then 0%N   (* renaming by object identity: outside the model *)
+      (* renaming by object identity is modelled through canonical paths: comparable when no module
+         re-exports foreign objects (harness flag) and no name is bound to two different objects (which
+         of them rope's own name lookup picks is not modelled) *)
+      if (N.leb 3 (c_action c)) && negb (c_cmp_used c && consistent (c_lay c) (c_stmts c)) then 0%N
       else if negb (out_eqb c (map s_info l) r) then 1%N
       else if (N.leb 3 (c_action c)) && c_cmp_used c && negb (set_eqb us (c_out_used c)) then 4%N
       else if in_domain c && negb (meaning_preserved_b (c_lay c) (c_stmts c) l (theorem_names c)) then 3%N
